@@ -129,7 +129,9 @@ def start_state(btype, normalize, validate):
     return False, corpus.state_blob(False, "open", cfg)
 
 
-def do_call(conn, btype, headers):
+def do_call(conn, btype, headers, es=False):
+    if es and btype in ("response", "request"):
+        return H.call(conn, "send_headers", 1, headers, end_stream=True)
     if btype == "request":
         return H.call(conn, "send_headers", 1, headers)
     if btype == "trailers":
@@ -151,10 +153,11 @@ def as_form(lst, form):
     raise ValueError(form)
 
 
-def judge(btype, normalize, validate, lst, form, viols, outcomes):
+def judge(btype, normalize, validate, lst, form, viols, outcomes, conn=None, es=False, tag=None):
     headers = as_form(lst, form)
-    client, blob = start_state(btype, normalize, validate)
-    conn = pickle.loads(blob)
+    if conn is None:
+        client, blob = start_state(btype, normalize, validate)
+        conn = pickle.loads(blob)
     # the library classifies 1xx on the raw list; if raw and normalised views disagree the block type is ambiguous
     eff = btype
     if btype in ("response", "info"):
@@ -170,12 +173,16 @@ def judge(btype, normalize, validate, lst, form, viols, outcomes):
     if exp[0] is HS.UNSPECIFIED:
         outcomes["unspecified"] = outcomes.get("unspecified", 0) + 1
         return False
-    o = do_call(conn, btype, headers)
+    o = do_call(conn, btype, headers, es)
     case = {"btype": btype, "normalize": normalize, "validate": validate, "form": form,
             "list": [[n.hex(), v.hex()] for n, v in lst]}
+    if tag:
+        case.update(tag["case"])
 
     def bad(kind, msg, **sig):
         s = {"kind": kind, "btype": eff, "normalize": normalize, "validate": validate}
+        if tag:
+            s["after_refused_call"] = True
         s.update(sig)
         k = repr(sorted(s.items()))
         if k not in viols:
@@ -233,6 +240,8 @@ def decode_block(o):
 
 
 def job(job):
+    if job.get("after_refusal"):
+        return job_after_refusal(job)
     btype, (normalize, validate), forms = job["btype"], tuple(job["cfg"]), job["forms"]
     alll = lists_for(btype, BASES, job["tokset"], job["dist"], job["part"])
     lists = alll[job["shard"]::job["nshards"]]
@@ -254,8 +263,47 @@ def job(job):
                          "list": [[a.decode("latin-1"), b.decode("latin-1")] for a, b in lists[len(lists) // 2]]}] if lists else []}
 
 
+def job_after_refusal(job):
+    """History layer: a call that is refused for its header list, then a second call on the same stream.  The second
+    call must be judged exactly as on a fresh stream: the refused one has sent nothing and changed nothing."""
+    btype, (normalize, validate) = job["btype"], tuple(job["cfg"])
+    viols, outcomes = {}, {}
+    n = nt = 0
+    base = tuple(BASES[btype])
+    seconds = [(base, False), (tuple(BASES["trailers"]), True), (tuple(BASES["trailers"]), False)]
+    if btype in ("response", "request"):
+        seconds.append((base, True))
+    for first in lists_for(btype, BASES, "full", 1, "d1"):
+        eff = btype
+        if btype in ("response", "info"):
+            eff = "info" if HS.is_informational(list(first)) else "response"
+        if HS.expected_outbound(normalize, validate, eff, list(first))[0] != "refused":
+            continue
+        for second, es in seconds:
+            client, blob = start_state(btype, normalize, validate)
+            conn = pickle.loads(blob)
+            o = do_call(conn, btype, as_form(first, "bytes"))
+            if o.kind != "raise":
+                continue            # not refused after all: reported by the plain layer
+            n += 1
+            tag = {"case": {"fam": "after-refusal", "first": [[a.hex(), b.hex()] for a, b in first], "es": es}}
+            if judge(btype, normalize, validate, second, "bytes", viols, outcomes, conn=conn, es=es, tag=tag):
+                nt += 1
+    return {"evaluations": n, "outcomes": {("%s:after-refusal:" % btype) + k: v for k, v in outcomes.items()}, "nontrivial": nt,
+            "violations": list(viols.values()), "samples": []}
+
+
 def replay(rec):
     c = rec["case"]
+    if c.get("fam") == "after-refusal":
+        viols, outcomes = {}, {}
+        client, blob = start_state(c["btype"], c["normalize"], c["validate"])
+        conn = pickle.loads(blob)
+        first = tuple((bytes.fromhex(a), bytes.fromhex(b)) for a, b in c["first"])
+        do_call(conn, c["btype"], as_form(first, "bytes"))
+        lst = tuple((bytes.fromhex(a), bytes.fromhex(b)) for a, b in c["list"])
+        judge(c["btype"], c["normalize"], c["validate"], lst, "bytes", viols, outcomes, conn=conn, es=c["es"], tag={"case": {}})
+        return list(viols.values())
     viols, outcomes = {}, {}
     lst = tuple((bytes.fromhex(a), bytes.fromhex(b)) for a, b in c["list"])
     judge(c["btype"], c["normalize"], c["validate"], lst, c["form"], viols, outcomes)
@@ -293,6 +341,9 @@ def run(ctx):
             for i in range(ns):
                 jobs.append({"btype": btype, "cfg": [True, True], "tokset": "small", "dist": 3, "part": "shell3", "shard": i,
                              "nshards": ns, "forms": ["bytes"]})
+    for btype in BASES:
+        for cfg in ((True, True), (False, True)):
+            jobs.append({"after_refusal": True, "btype": btype, "cfg": list(cfg)})
     _BALLS.clear()
     ctx.fanout("c14-%s" % ctx.tier, jobs, "job", domain="%d distinct (block type, configuration, list) cases" % total)
     ctx.fanouts[-1]["states"] = 3 * len(CFGS)
